@@ -46,7 +46,7 @@ var tok = insecuresecretdataaccess.Token{}
 // bufs holds the driver-owned REUSED input buffers (one backing array per argument role): every call overwrites
 // them with its inputs and scribbles over them afterwards; logged inputs come from the pristine arguments, outputs
 // are copied / projected after the scribble.
-var bufs = dpk.Arenas{}
+var bufs = dpk.NewArenas()
 
 func cp(b []byte) []byte { return append([]byte{}, b...) }
 
@@ -394,7 +394,7 @@ func handlesEqual(a, b *keyset.Handle) bool {
 }
 
 type run struct {
-	w   *vt.Writer
+	w   *dpk.Writer
 	r   *rand.Rand
 	seq int
 }
@@ -455,6 +455,17 @@ func (x *run) deriveWith(route string, h *keyset.Handle, ks []dentry, salt []byt
 				}
 				wh, werr := call(ws)
 				walkSalts, walkHs, walkErrs = append(walkSalts, ws), append(walkHs, wh), append(walkErrs, werr)
+			}
+			// the enclosing-buffer sequence: the salt is buf[:n] of a larger caller record (the rest of the record is the
+			// slice's spare capacity), then a longer prefix of the same buffer, NOT rewritten in between
+			for _, nk := range [][2]int{{0, 3}, {9, 15}, {32, 1}} {
+				rec := vt.Bytes(x.r, nk[0]+nk[1])
+				wh, werr := d.DeriveKeyset(bufs.InPrefix("salt", rec, nk[0]))
+				bufs.Check()
+				walkSalts, walkHs, walkErrs = append(walkSalts, cp(rec[:nk[0]])), append(walkHs, wh), append(walkErrs, werr)
+				wh, werr = d.DeriveKeyset(bufs.Again("salt", len(rec)))
+				bufs.ScribbleAll()
+				walkSalts, walkHs, walkErrs = append(walkSalts, rec), append(walkHs, wh), append(walkErrs, werr)
 			}
 		}
 	})
@@ -819,7 +830,7 @@ func salts(r *rand.Rand, i int, full bool) [][]byte {
 
 var shapesPath string
 
-func runAll(w *vt.Writer, full bool) {
+func runAll(w *dpk.Writer, full bool) {
 	x := &run{w: w, r: vt.Rng(17)}
 	r := x.r
 	ds := derivedConfigs(full)
@@ -1176,7 +1187,7 @@ func (x *run) stream(hash string, k, salt, input []byte, reads []int) {
 
 // ---- replay ---------------------------------------------------------------------------------
 
-func replay(path string, w *vt.Writer) {
+func replay(path string, w *dpk.Writer) {
 	raw, err := os.ReadFile(path)
 	if err != nil {
 		vt.Fatal("read replay: %v", err)
@@ -1231,7 +1242,7 @@ func main() {
 	if *out == "" {
 		vt.Fatal("usage: c17 -out trace.ndjson [-replay file]")
 	}
-	w := vt.NewWriter(*out)
+	w := dpk.NewWriter(*out, bufs)
 	defer w.Close()
 	if *rp != "" {
 		replay(*rp, w)
